@@ -15,6 +15,7 @@ func (ex *Exec) step(fr *Frame, ins ssa.Instruction) {
 	case *ssa.Alloc:
 		et := x.Type().(*types.Pointer).Elem()
 		o := ex.newObject(x.Comment, et, ZeroValue(et))
+		o.allocG = fr.guard
 		fr.set(x, Ref1(AddrT{Obj: o}))
 	case *ssa.UnOp:
 		fr.set(x, ex.unop(fr, x))
@@ -110,6 +111,25 @@ func (ex *Exec) step(fr *Frame, ins ssa.Instruction) {
 		fr.guard = saved
 	case *ssa.If:
 		c := ex.operand(fr, x.Cond).(BoolV).T
+		// remember `if m[k] == nil` so that the create branch can recycle the slot's map
+		if bo, ok := x.Cond.(*ssa.BinOp); ok && (bo.Op == token.EQL || bo.Op == token.NEQ) {
+			if lk, ok := bo.X.(*ssa.Lookup); ok && !lk.CommaOk {
+				if cst, ok := bo.Y.(*ssa.Const); ok && cst.Value == nil {
+					if _, isMap := lk.X.Type().Underlying().(*types.Map); isMap {
+						if fr.nilTested == nil {
+							fr.nilTested = map[*ssa.BasicBlock]nilTest{}
+						}
+						succ := fr.cur.Succs[0]
+						if bo.Op == token.NEQ {
+							succ = fr.cur.Succs[1]
+						}
+						if mv, ok := ex.operand(fr, lk.X).(RefV); ok && len(succ.Preds) == 1 {
+							fr.nilTested[succ] = nilTest{m: mv, key: ex.operand(fr, lk.Index)}
+						}
+					}
+				}
+			}
+		}
 		fr.addEdge(fr.cur.Succs[0], And(fr.guard, c), fr.cur)
 		fr.addEdge(fr.cur.Succs[1], And(fr.guard, Not(c)), fr.cur)
 	case *ssa.Jump:
@@ -239,7 +259,9 @@ func (ex *Exec) indexAddr(fr *Frame, x *ssa.IndexAddr) Value {
 			}
 		}
 	case *types.Slice:
-		ex.addPanic(fr, Not(BVCmp("bvult", it, ex.sliceLen(base))), "index-out-of-range", x.Pos())
+		if _, ok := fr.sparseIdx[x.Index]; !ok {
+			ex.addPanic(fr, Not(BVCmp("bvult", it, ex.sliceLen(base))), "index-out-of-range", x.Pos())
+		} // else: range driver, the cell is present by construction
 		if k, ok := fr.sparseIdx[x.Index]; ok {
 			// range driver over a sparse slice: this iteration is physical cell k
 			for _, a := range base.Alts {
